@@ -1,84 +1,591 @@
-"""Binding self-test: for several suites record a few real traces, then (a) corrupt one logged result and (b) drop one event, and require
-the trace specification to reject both while accepting the untouched trace.  Shows that the specifications are bound to what the code
-logs and not merely to the length or shape of the trace.  Usage: python3 lib/selftest.py   (exit 0 = all bindings demonstrated)"""
+"""Binding self-test: for EVERY trace specification (kind T) used by the checks, record a few real traces the way the check does,
+then (a) corrupt logged result fields (one event each, up to three per specification, each in a trace of its own) - fields the
+property says matter and the T spec's Step reads - and, where the specification is stateful, (b) drop one state-changing event whose
+effect a later event of the same trace observes, and require TLC to reject every corrupted / dropped trace while accepting the
+untouched file.  Shows that the specifications are bound to what the
+code logs and not merely to the length or shape of the trace.
+
+Usage: python3 lib/selftest.py [--only Name[,Name...]] [--out FILE] [--jobs N]
+Exit:  0 every specification is bound, 1 some corruption / drop was accepted, 2 the machinery failed.
+
+One table (SPECS) drives everything; per specification there is a small function that records the trace file (`rec_*`) and small
+functions that say which event / field to corrupt and which event to drop.  Per specification two TLC runs: the untouched file,
+then corrupted + dropped copies of the whole file in one run (the dropped copy's trace ids are shifted by DROP_T).  A trace that the
+untouched run already rejects (an OPEN entry of known_findings.jsonl) is never chosen as a target: the baseline is subtracted."""
+import concurrent.futures
 import json
 import os
+import re
+import shutil
 import sys
+import time
 
 sys.path.insert(0, os.path.dirname(os.path.abspath(__file__)))
 import vcheck
 
-CASES = [
-    # (suite args producing a trace, spec dir, T module, cfg, extra spec dirs, event name to corrupt, field, corruption)
-    (["cursor", "record", "-n", "40", "-seed", "7"], "cursor", "CursorTrace", "CursorTrace.cfg", (), "Peek", "r", lambda v: (v + 1) % 256),
-    (["stream", "record", "-n", "40", "-seed", "7"], "stream", "StreamTrace", "StreamTrace.cfg", ("cursor",), "Peek", "r", lambda v: (v + 1) % 256),
-    (["rw", "record", "-n", "40", "-seed", "7"], "buffer", "RWTrace", "RWTrace.cfg", (), "Write", "n", lambda v: v + 1),
-    (["walk", "record", "-harvest", "5", "-combos", "5"], "js", "WalkTrace", "WalkTrace.cfg", (), "Exit", "id", lambda v: v + 1),
-    (["conc", "history", "-tasks", "30"], "conc", "IsolationTrace", "IsolationTrace.cfg", (), "History", "same", lambda v: not v),
+DROP_T = 10 ** 8          # shift of the trace ids of the "dropped" copy inside the combined second run
+TLC_TIMEOUT = 300
+
+
+# ---------------------------------------------------------------------------------------------------------------- trace files
+def dumps(e):
+    return json.dumps(e, separators=(",", ":"))
+
+
+def read_events(path):
+    return [json.loads(x) for x in open(path) if x.strip()]
+
+
+def write_events(path, evs):
+    with open(path, "w") as f:
+        for e in evs:
+            f.write(dumps(e) + "\n")
+
+
+def traces_of(evs):
+    """[(lo, hi)] index ranges of the traces (a trace starts at i = 0)."""
+    starts = [k for k, e in enumerate(evs) if e.get("i") == 0]
+    return [(lo, (starts[n + 1] if n + 1 < len(starts) else len(evs))) for n, lo in enumerate(starts)]
+
+
+def thin(path, keep, skip=None):
+    """Keep at most `keep` traces of a recorded file (every k-th, so that all families of the recorder stay represented).  `skip` (a
+    predicate on the events of a trace) leaves out the inputs that hit an OPEN entry of known_findings.jsonl / a known
+    beyond-property note, so that the untouched file is accepted."""
+    evs = read_events(path)
+    tr = [(lo, hi) for lo, hi in traces_of(evs) if not (skip and skip(evs[lo:hi]))]
+    step = max(1, (len(tr) + keep - 1) // keep)
+    while step > 1 and any(step % q == 0 for q in range(2, step)):
+        step += 1                   # a prime stride: recorders cycle through their families with small periods
+    write_events(path, [e for lo, hi in tr[::step] for e in evs[lo:hi]])
+    return path
+
+
+def few_cases(path, keep, header=lambda line: False, skip=None):
+    """Reduce a TLC-written case file to about `keep` lines: sorted (TLC's workers write in no fixed order), every k-th line;
+    header lines (vocabulary / vacuity records some harnesses expect first) are kept.  `skip` (a predicate on the JSON text of a
+    case) leaves out the inputs that hit an OPEN entry of known_findings.jsonl, so that the untouched file is accepted."""
+    lines = sorted(set(x for x in open(path) if x.strip()))
+    head = [x for x in lines if header(x)]
+    rest = [x for x in lines if not header(x) and not (skip and skip(json.loads(x) if x.startswith('"') else x))]
+    step = max(1, len(rest) // keep)
+    with open(path, "w") as f:
+        f.writelines(head + rest[::step])
+    return path
+
+
+# ---------------------------------------------------------------------------------------------------------------- recorders
+# Each returns the path of a small trace file produced exactly the way the check of that specification produces its traces
+# (same vdrive suite and mode; where the check replays TLC-generated cases, TLC generates them here too, from the smallest
+# existing configuration, and only every k-th case is replayed).
+def gen(ck, name, sdir, module, cfg, keep, header=lambda line: False, skip=None, **kw):
+    cases = ck.path("cases-%s.ndjson" % name)
+    kw.setdefault("workers", 2)
+    ck.tlc(sdir, module, cfg, env={"VERIF_CASES": cases, "VERIF_SEED": 1}, timeout=TLC_TIMEOUT, count=False, label="selftest generator", **kw)
+    if not os.path.exists(cases) or os.path.getsize(cases) == 0:
+        ck.fatal("selftest: generator %s/%s %s wrote no cases" % (sdir, module, cfg))
+    return few_cases(cases, keep, header, skip)
+
+
+def rec_simple(*args):
+    def rec(ck, name):
+        tp = ck.path("st-%s.ndjson" % name)
+        ck.drive(*args, "-out", tp)
+        return tp
+    return rec
+
+
+PROTO_INPUTS = [("css.lex", "a{b:c}"), ("css.parse", "a{b:c d}e{f:1px}"), ("html", "<a href=x  id='y'>t</a><!--c-->"),
+                ("xml", "<a b=\"c\"  d='e'><f/>t</a>"), ("json", "{\"a\":[1,true]}"), ("js.lex", "var a = 1+b;"),
+                ("js.parse", "let a=1;if(a){b()}"), ("html.tmpl.go", "<p {{x}}>{{ y }}</p>")]
+
+
+def rec_lexers(token_level_only):
+    def rec(ck, name):
+        inp, tp = ck.path("st-%s-in.ndjson" % name), ck.path("st-%s.ndjson" % name)
+        with open(inp, "w") as f:
+            for lang, s in PROTO_INPUTS:
+                f.write(json.dumps({"lang": lang, "input": list(s.encode())}) + "\n")
+        ck.drive("lexers", "file", "-in", inp, "-out", tp, "-family")
+        if token_level_only:        # C02 says nothing about the parsers (checks/C02.py token_level_only)
+            evs = read_events(tp)
+            write_events(tp, [e for lo, hi in traces_of(evs) if evs[lo].get("tokenLvl") for e in evs[lo:hi]])
+        return tp
+    return rec
+
+
+def rec_jsgram(ck, name):
+    cases = gen(ck, name, "js", "JsGrammar", "G_classasi.cfg", 60)
+    tp = ck.path("st-%s.ndjson" % name)
+    ck.drive("jsgram", "replay", "-cases", cases, "-out", tp, "-seed", 1, "-muts", 1, "-sample", 1)
+    return thin(tp, 150)
+
+
+def scope_skip(s):
+    """not replayed: parameter defaults, class expressions, for-var loops, loop conditions (the open C04 findings live there)"""
+    return any(it.get("k") == "open" and (it.get("s") in ("cx", "forvar") or it.get("c") or any(p.get("d") for p in it.get("ps") or []))
+               for it in json.loads(s).get("prog") or [])
+
+
+TREE_PROGRAMS = ["x = a + b * c ;\nfor ( y = ( p in q ) ; ; ) ;\nfunction f ( ) { return 1 }",
+                 "let a = 1 , b = [ a , 2 ] ; if ( a ) { b ( a ) } else c = a ? b : d", "class A extends B { m ( x ) { return x ** 2 } }",
+                 "function * g ( ) { yield a + 1 ; }", "a = b || c && d ; e = - f * g"]
+
+
+def rec_jstree(ck, name):
+    inp, tp = ck.path("st-%s-in.ndjson" % name), ck.path("st-%s.ndjson" % name)
+    with open(inp, "w") as f:
+        for p in TREE_PROGRAMS:
+            f.write(json.dumps({"src": list(p.encode())}) + "\n")
+    ck.drive("jsgram", "treefile", "-in", inp, "-out", tp)
+    return tp
+
+
+def rec_scope(ck, name):
+    cases = gen(ck, name, "js", "ScopeSem", "ScopeSem_sim.cfg", 150, skip=scope_skip, simulate=60, depth=12, seed=1, workers=1)
+    tp = ck.path("st-%s.ndjson" % name)
+    ck.drive("scope", "replay", "-cases", cases, "-out", tp, "-sample", 1, "-inputs", ck.path("st-%s-programs.ndjson" % name))
+    return tp
+
+
+def rec_printer(ck, name):
+    tp = ck.path("st-%s.ndjson" % name)
+    ck.drive("printer", "record", "-out", tp, "-seed", 1, "-harvest", 30, "-combos", 10, "-sample", 50)
+    return thin(tp, 150)
+
+
+def rec_jstok(ck, name):
+    cases = gen(ck, name, "js", "JsTokensGen", "Gen_edges.cfg", 150, header=lambda x: '\\"vocab\\"' in x[:12])
+    tp = ck.path("st-%s.ndjson" % name)
+    ck.drive("jstok", "replay", "-cases", cases, "-out", tp, "-seed", 1, "-double", "-", "-mutevery", 1000000)
+    return tp
+
+
+def rec_csstok(ck, name):
+    cases = gen(ck, name, "css", "CssTokensGen", "Gen_seps.cfg", 150, header=lambda x: '\\"meta\\"' in x[:12],
+                skip=lambda s: '"n":"ur.' in s)       # unicode-range atoms: open C07 finding (U+1- abandoned)
+    tp = ck.path("st-%s.ndjson" % name)
+    ck.drive("csstok", "replay", "-cases", cases, "-out", tp, "-seed", 1, "-variants", 1, "-sample", 1)
+    return tp
+
+
+def rec_cssp(ck, name):
+    tp = ck.path("st-%s.ndjson" % name)
+    ck.drive("cssp", "record", "-out", tp, "-seed", 1, "-harvest", 30, "-muts", 1)
+    return tp
+
+
+def rec_cssgrammar(ck, name):
+    cases = gen(ck, name, "css", "CssGrammar", "Grammar_kinds.cfg", 150)
+    tp = ck.path("st-%s.ndjson" % name)
+    ck.drive("cssp", "replay", "-cases", cases, "-out", tp, "-inputs", ck.path("st-%s-inputs.ndjson" % name), "-seed", 1, "-variants", 1, "-keep", 1)
+    return tp
+
+
+def rec_html(ck, name):
+    cases = gen(ck, name, "html", "HtmlDoc", "Gen_html_quick.cfg", 150, header=lambda x: '\\"required\\"' in x[:16],
+                skip=lambda s: '"svg"' in s or '"math"' in s)      # svg / math subtrees: open C09 findings
+    tp = ck.path("st-%s.ndjson" % name)
+    ck.drive("htmldoc", "replay", "-cases", cases, "-out", tp, "-seed", 1, "-variants", 1, "-muts", 0, "-alsotmpl", 1000000)
+    return tp
+
+
+def rec_json(ck, name):
+    cases = gen(ck, name, "json", "JsonGrammar", "Gen_grammar_quick.cfg", 100)
+    tp = ck.path("st-%s.ndjson" % name)
+    ck.drive("jsonp", "replay", "-cases", cases, "-out", tp, "-seed", 1, "-variants", 1, "-muts", 0)
+    return tp
+
+
+def rec_xml(ck, name):
+    cases = gen(ck, name, "xml", "XmlDoc", "Gen_deep.cfg", 60, simulate=40, depth=400, seed=1, workers=1)
+    tp = ck.path("st-%s.ndjson" % name)
+    ck.drive("xmldoc", "replay", "-cases", cases, "-out", tp, "-seed", 1, "-variants", 1, "-muts", 0)
+    return tp
+
+
+def rec_record(suite, keep, *flags, skip=None):
+    def rec(ck, name):
+        tp = ck.path("st-%s.ndjson" % name)
+        extra = []
+        if suite == "binary":
+            os.makedirs(ck.path("tmp-%s" % name), exist_ok=True)
+            extra = ["-tmp", ck.path("tmp-%s" % name)]
+        ck.drive(suite, "record", *flags, *extra, "-out", tp)
+        return thin(tp, keep, skip)
+    return rec
+
+
+def position_skip(tr):      # open C15 finding: xml error position after in-place attribute normalisation
+    return any(e.get("ev") == "ErrPos" and e.get("msg") == "unexpected NULL character" for e in tr)
+
+
+def helpers2_skip(tr):      # known beyond-property notes: IsIdent("") is true, AsIdentifierName is false for non-ASCII names
+    o = tr[0]
+    return (o.get("fam") == "css" and o.get("cls_id") == "empty") or (o.get("fam") == "js" and o.get("cls_id") == "non-ascii")
+
+
+# ---------------------------------------------------------------------------------------------------------------- what to corrupt
+# A corruption is (event names, field, f): f(event, trace, field) returns the corrupted value of event[field], or None when this
+# event is not a suitable target (then the next candidate is tried).  `trace` is the list of events of the event's trace.  Every
+# field named in the table is one the T spec's Step reads and the property statement speaks about; several corruptions of one
+# specification go into different traces of the same file.
+def bump(mod=None):
+    return lambda e, tr, fld: (e[fld] + 1) % mod if mod else e[fld] + 1
+
+
+def flip(e, tr, fld):
+    return not e[fld]
+
+
+def setv(value, when=lambda e, tr: True):
+    return lambda e, tr, fld: value if when(e, tr) else None
+
+
+def swap(a, b):
+    """a -> b, anything else -> a"""
+    return lambda e, tr, fld: b if e[fld] == a else a
+
+
+def last_elem(f, when=lambda e, tr: True):
+    """one element (the last) of a logged sequence of bytes / digits"""
+    def g(e, tr, fld):
+        v = e[fld]
+        return v[:-1] + [f(v[-1])] if v and when(e, tr) else None
+    return g
+
+
+def a_token(e, tr):                  # a report that is a token (not an error report)
+    return not e.get("err")
+
+
+def proto_off(e, tr, fld):           # C01: the cursor leaves the input
+    return e[fld] + 100000 if a_token(e, tr) else None
+
+
+def token_slice(e, tr):              # C02: a token that is a slice of the input
+    return e.get("al") and not e.get("err")
+
+
+def concat_slice(e, tr):             # C02: ... of a CSS / JS lexer before any error report (tokens concatenate to the input)
+    return token_slice(e, tr) and tr[0].get("concat") and not any(x.get("err") for x in tr if x["i"] < e["i"])
+
+
+def accepted_program(e, tr):         # C03: js.Parse returned the tree of a derivable program
+    return tr[0].get("kind") == "accept" and e.get("ok")
+
+
+def scope_obs(e, tr, fld):           # C04: one identifier occurrence is attributed to another binding
+    v = e[fld]
+    if len(v) < 2:
+        return None
+    k = len(v) - 1
+    if v[k] > 0 and v[k] in v[:k]:
+        new = max(v) + 1             # split from the binding it shares with an earlier occurrence
+    else:
+        others = [x for x in v[:k] if x != v[k] and x > 0]
+        if not others:
+            return None
+        new = others[0]              # merged with a different binding
+    return v[:k] + [new]
+
+
+def expected(flag):
+    """a token of a trace that carries an expectation (Open[flag] true)"""
+    return lambda e, tr: bool(tr[0].get(flag)) and not e.get("err")
+
+
+def kind_swap(a, b, when):
+    return lambda e, tr, fld: (b if e[fld] == a else a) if when(e, tr) else None
+
+
+def derived(e, tr):                  # C06: a token of an input JsTokensGen derived
+    return not tr[0].get("free") and not e.get("err")
+
+
+def no_parse_error(tr):              # C08: nesting is judged while no parse error was reported
+    return not any(x.get("pe") for x in tr)
+
+
+def cssstream_gt(e, tr, fld):        # C08: a Begin reported as an End
+    if not no_parse_error(tr) or e[fld] not in ("BeginRuleset", "BeginAtRule"):
+        return None
+    return "EndRuleset" if e[fld] == "BeginRuleset" else "EndAtRule"
+
+
+def cssstream_tok(e, tr, fld):       # C08: a reported token that is not a token of the input
+    v = e[fld]
+    k = next((n for n, t in enumerate(v) if t.get("k") == "tok"), None)
+    return None if k is None else v[:k] + [dict(v[k], k="none")] + v[k + 1:]
+
+
+def json_kind(e, tr, fld):           # C10: an array start reported as an object start (and vice versa)
+    return {"StartArray": "StartObject", "StartObject": "StartArray"}.get(e[fld]) if not e.get("err") else None
+
+
+def read_ok(e, tr):                  # C19: a read that succeeded
+    return e.get("x") == "nil"
+
+
+FIXED_READS = tuple("Read%s%d" % (s, w) for s in ("Uint", "Int") for w in (8, 16, 24, 32, 64))
+FIXED_WRITES = tuple("Write%s%d" % (s, w) for s in ("Uint", "Int") for w in (8, 16, 24, 32, 64))
+
+
+# ---------------------------------------------------------------------------------------------------------------- what to drop
+# A drop is (event names, observed): observed(events, j) says whether dropping events[j] is seen by a later event of its trace.
+def later(target=lambda e, tr: True, observer=(), reset=(), trace_ok=lambda tr: True):
+    """events[j] satisfies `target` and, before the end of its trace and before any `reset` event, an `observer` event follows."""
+    def observed(evs, j, bounds):
+        lo, hi = bounds
+        tr = evs[lo:hi]
+        if not trace_ok(tr) or not target(evs[j], tr):
+            return False
+        for o in evs[j + 1:hi]:
+            if o["ev"] in reset:
+                return False
+            if (o["ev"] in observer) if isinstance(observer, tuple) else observer(o):
+                return True
+        return False
+    return observed
+
+
+def next_is(ev, kname):
+    def observed(evs, j, bounds):
+        return j + 1 < bounds[1] and evs[j].get("kname") == "StartTag" and evs[j + 1].get("ev") == ev and evs[j + 1].get("kname") == kname
+    return observed
+
+
+def proto_open(evs, j, bounds):
+    """The constructor event of a trace whose first report is a token, directly after a trace that ended with io.EOF: without it
+    the reports continue the finished stream of the previous input (NextProtocol: io.EOF is final)."""
+    lo, hi = bounds
+    if j != lo or lo == 0 or hi - lo < 2:
+        return False
+    first = evs[lo + 1]
+    prev_t = evs[lo - 1]["t"]
+    prev = [e for e in evs[:lo] if e["t"] == prev_t]
+    return first.get("ev") == "Next" and not first.get("err") and any(e.get("ev") == "Next" and e.get("err") and e.get("eof") for e in prev)
+
+
+def nonempty(e, tr):
+    return e.get("n") != 0 and e.get("p") != []
+
+
+# ---------------------------------------------------------------------------------------------------------------- the table
+# name (= T module; its cfg is <name>.cfg), spec dir, extra spec dirs, recorder, corruptions [(events, field, f)], drop (events, observed) or None
+SPECS = [
+    ("CursorTrace", "cursor", (), rec_simple("cursor", "record", "-n", "40", "-seed", "7"),
+     [(("Peek",), "r", bump(256))],
+     (("Move",), later(nonempty, ("Offset", "Peek", "PeekErr", "Lexeme", "Shift", "Pos"), ("Reset", "Rewind", "Restore")))),
+    ("StreamTrace", "stream", ("cursor",), rec_simple("stream", "record", "-n", "40", "-seed", "8"),
+     [(("Peek",), "r", bump(256))],
+     (("Shift",), later(nonempty, ("ShiftLen", "Pos", "Free")))),
+    ("RWTrace", "buffer", (), rec_simple("rw", "record", "-n", "40", "-seed", "7"),
+     [(("Write",), "n", bump())],
+     (("Write",), later(nonempty, ("Bytes", "Len"), ("ResetW",)))),
+    ("WalkTrace", "js", (), rec_simple("walk", "record", "-harvest", "5", "-combos", "5"),
+     [(("Exit",), "id", bump())],
+     (("Enter",), later(observer=("Exit",)))),
+    ("IsolationTrace", "conc", (), rec_simple("conc", "history", "-tasks", "30"),
+     [(("History",), "same", flip)],
+     None),
+    ("ProtoTrace", "proto", (), rec_lexers(False),                                                              # C01
+     [(("Next",), "off", proto_off), (("Next",), "oob", flip), (("Parse", "String", "JS", "Walk", "JSON"), "out", setv("panic"))],
+     (("Open",), proto_open)),
+    ("TokenTrace", "proto", (), rec_lexers(True),                                                               # C02
+     [(("Next",), "hi", lambda e, tr, fld: e[fld] + 1 if token_slice(e, tr) else None),
+      (("Next",), "lo", lambda e, tr, fld: e[fld] + 1 if concat_slice(e, tr) else None),
+      (("Next",), "capEq", setv(False, token_slice))],
+     (("Next",), later(concat_slice, lambda o: o.get("ev") == "Next" and o.get("al") and not o.get("err"),
+                       trace_ok=lambda tr: not any(x.get("err") and not x.get("eof") for x in tr)))),
+    ("JsGrammarTrace", "js", (), rec_jsgram,                                                                    # C03
+     [(("Parse",), "str", last_elem(lambda c: c ^ 1, accepted_program)), (("Parse",), "ok", setv(True, lambda e, tr: tr[0].get("kind") == "reject"))],
+     None),
+    ("JsTreeTrace", "js", (), rec_jstree,                                                                       # C03, the returned tree
+     [(("Node",), "op", lambda e, tr, fld: "*" if e.get("k") == "bin" and e[fld] == "+" and e.get("ck") == ["id", "bin"] else None),   # a + b * c as a * (b * c): operand below the demanded level
+      (("Node",), "g", lambda e, tr, fld: [[e[fld][0][0] + 16]] if e.get("k") == "id" and len(e[fld]) == 1 and len(e[fld][0]) == 1 else None)],  # another terminal
+     (("Node",), later(lambda e, tr: e.get("n") == 0 and e.get("d", 0) > 0, ("Node", "Close")))),
+    ("ScopeTrace", "js", (), rec_scope,                                                                         # C04
+     [(("Vars",), "obs", scope_obs), (("Reparse",), "obs", scope_obs), (("Parse",), "ok", flip)],
+     None),
+    ("PrinterTrace", "js", (), rec_printer,                                                                     # C05
+     [(("Trees",), "equal", flip), (("Print2",), "same", flip), (("Literals",), "missing", setv([1]))],
+     (("Parse2",), later(observer=("Trees", "Print2")))),
+    ("JsTokensTrace", "js", (), rec_jstok,                                                                      # C06
+     [(("Tok",), "kname", kind_swap("Identifier", "String", derived)), (("Tok",), "hi", lambda e, tr, fld: e[fld] + 1 if derived(e, tr) else None),
+      (("Tok",), "same", setv(False, derived))],
+     (("Tok",), later(derived, ("Tok", "End")))),
+    ("CssTokensTrace", "css", (), rec_csstok,                                                                   # C07
+     [(("Tok",), "kname", swap("Dimension", "Ident")), (("Tok",), "same", flip)],
+     (("Tok",), later(observer=("Tok", "End"), trace_ok=lambda tr: tr[0].get("mode") == "tok"))),
+    ("CssStreamTrace", "css", (), rec_cssp,                                                                     # C08, all inputs
+     [(("Next",), "gt", cssstream_gt), (("Next",), "toks", cssstream_tok)],
+     (("Next",), later(lambda e, tr: e.get("gt") in ("BeginRuleset", "BeginAtRule"), lambda o: o.get("gt") in ("EndRuleset", "EndAtRule"),
+                       trace_ok=no_parse_error))),
+    ("CssGrammarTrace", "css", (), rec_cssgrammar,                                                              # C08, well-formed
+     [(("Unit",), "gt", swap("Declaration", "AtRule")), (("Unit",), "m", setv(-1))],
+     (("Unit",), later(observer=("Unit", "Finish")))),
+    ("HtmlTrace", "html", (), rec_html,                                                                         # C09
+     [(("Tok",), "kname", kind_swap("Text", "Comment", expected("checked"))), (("Tok",), "dOK", setv(False, expected("checked"))),
+      (("Tok",), "tmpl", lambda e, tr, fld: (not e[fld]) if expected("checked")(e, tr) else None)],
+     (("Tok",), next_is("Tok", "Attribute"))),
+    ("JsonTrace", "json", (), rec_json,                                                                         # C10
+     [(("Next",), "kname", json_kind), (("Next",), "data", last_elem(lambda c: c ^ 1, a_token)), (("Next",), "sa", setv("Value", lambda e, tr: a_token(e, tr) and e["sa"] != "Value"))],
+     (("Next",), later(lambda e, tr: e.get("kname") in ("StartObject", "StartArray"), lambda o: o.get("kname") in ("EndObject", "EndArray")))),
+    ("XmlTrace", "xml", (), rec_xml,                                                                            # C11
+     [(("Tok",), "kname", kind_swap("Text", "Comment", expected("wf"))), (("Tok",), "text", last_elem(lambda c: c ^ 1, expected("wf"))),
+      (("Tok",), "val", last_elem(lambda c: c ^ 1, lambda e, tr: expected("wf")(e, tr) and e.get("kname") == "Attribute"))],
+     (("Tok",), next_is("Tok", "Attribute"))),
+    ("NumericTrace", "strconv", (), rec_record("numeric", 150, "-n", 120, "-seed", 7),                          # C14
+     [(("ParseUint", "ParseInt"), "d", last_elem(lambda d: (d + 1) % 10)), (("AppendInt",), "o", last_elem(lambda c: 48 + (c - 47) % 10)),
+      (("ParseUint", "ParseInt"), "n", bump())],
+     None),
+    ("PositionTrace", "text", (), rec_record("position", 200, "-n", 30, "-offs", 3, "-m", 10, "-seed", 7, skip=position_skip),   # C15
+     [(("Pos",), "line", bump()), (("Pos",), "col", lambda e, tr, fld: e[fld] + 1000)],
+     None),
+    ("HelpersTrace", "text", (), rec_record("helpers", 300, "-n", 100, "-seed", 7),                             # C16
+     [(("Number",), "r", bump()), (("IsAllWhitespace",), "r", flip), (("ToLower",), "r", last_elem(lambda c: c ^ 1))],
+     None),
+    ("NormaliseTrace", "text", (), rec_record("normalise", 150, "-n", 100, "-seed", 7),                         # C17
+     [(("RMW",), "o", lambda e, tr, fld: e[fld] + [120]), (("RE",), "o", lambda e, tr, fld: e[fld] + [120]), (("Esc",), "rb", last_elem(lambda c: c ^ 1))],
+     None),
+    ("BinaryTrace", "binary", (), rec_record("binary", 60, "-n", 40, "-steps", 12, "-seed", 7),                 # C19
+     [(FIXED_READS, "v", last_elem(lambda c: (c + 1) % 256, read_ok)), (FIXED_READS + ("ReadBytes",), "x", setv("eof", read_ok)), (("Pos",), "r", bump())],
+     (FIXED_WRITES + ("WriteBytes",), later(nonempty, FIXED_WRITES + ("WriteBytes", "WLen", "WBytes"), ("Open", "BitOpen")))),
+    ("Helpers2Trace", "text", ("css",), rec_record("helpers2", 400, "-n", 40, "-seed", 7, skip=helpers2_skip),  # growth beyond C16
+     [(("LenUint",), "r", bump()), (("Copy",), "r", last_elem(lambda c: c ^ 1)), (("Printable",), "og", flip)],
+     (("Write",), later(lambda e, tr: e.get("p"), ("Out",)))),
 ]
 
 
-def main():
-    ck = vcheck.Check("SELFTEST", "quick", 1)
-    ck.build_harness()
-    bad = 0
-    for args, sdir, mod, cfg, extra, evname, field, corrupt in CASES:
-        tp = ck.path("st-%s.ndjson" % args[0])
-        ck.drive(*args, "-out", tp)
-        lines = open(tp).read().split("\n")
-        lines = [x for x in lines if x.strip()]
-        base = ck.validate(sdir, mod, cfg, tp, shards=1, extra_dirs=extra)
-        # (a) corrupt one result
-        k = next(i for i, x in enumerate(lines) if json.loads(x).get("ev") == evname and field in json.loads(x) and i > len(lines) // 3)
-        e = json.loads(lines[k])
-        e[field] = corrupt(e[field])
-        cp = ck.path("st-%s-corrupt.ndjson" % args[0])
-        open(cp, "w").write("\n".join(lines[:k] + [json.dumps(e, separators=(",", ":"))] + lines[k + 1:]) + "\n")
-        rc = ck.validate(sdir, mod, cfg, cp, shards=1, extra_dirs=extra)
-        # (b) drop one state-changing event (renumber the rest of its trace so that only the content is missing)
-        # (b) drop one state-changing event whose effect a later event of the same trace observes
-        plan = {"cursor": ("Move", ("Offset", "Peek", "PeekErr", "Lexeme", "Shift", "Pos"), ("Reset", "Rewind", "Restore")),
-                "stream": ("Shift", ("ShiftLen", "Pos", "Free"), ()),
-                "rw": ("Write", ("Bytes", "Len"), ("ResetW",)),
-                "walk": ("Enter", ("Exit",), ()), "conc": None}[args[0]]
-        names = plan[0] if plan else None
-        rd = None
-        if plan:
-            evs = [json.loads(x) for x in lines]
+# ---------------------------------------------------------------------------------------------------------------- one specification
+def candidates(evs, names, excluded):
+    """indices of events with one of the names in traces the untouched run accepted (and not yet used), starting a third into the file"""
+    n = len(evs)
+    order = list(range(n // 3, n)) + list(range(0, n // 3))
+    return [k for k in order if evs[k].get("ev") in names and evs[k]["t"] not in excluded]
 
-            def observed(j):
-                if evs[j].get("ev") != plan[0] or evs[j].get("n") == 0 or evs[j].get("p") == []:
-                    return False
-                for o in evs[j + 1:]:
-                    if o["t"] != evs[j]["t"] or o["ev"] in plan[2]:
-                        return False
-                    if o["ev"] in plan[1]:
-                        return True
-                return False
-            j = next(i for i in range(len(evs) // 3, len(evs)) if observed(i))
-            t = evs[j]["t"]
-            out = lines[:j]
-            for x in lines[j + 1:]:
-                o = json.loads(x)
-                if o["t"] == t:
-                    o["i"] -= 1
-                out.append(json.dumps(o, separators=(",", ":")))
-            dp = ck.path("st-%s-drop.ndjson" % args[0])
-            open(dp, "w").write("\n".join(out) + "\n")
-            rd = ck.validate(sdir, mod, cfg, dp, shards=1, extra_dirs=extra)
-        known_base = len(base)
-        ok = len(rc) > known_base and (rd is None or len(rd) > known_base)
-        print("%-8s untouched: %d rejected | corrupted %s.%s: %d rejected | dropped %s: %s  -> %s" % (
-            args[0], len(base), evname, field, len(rc), names, "n/a" if rd is None else "%d rejected" % len(rd), "bound" if ok else "NOT BOUND"))
-        bad += 0 if ok else 1
-    import shutil
-    shutil.rmtree(ck.work, ignore_errors=True)
-    return 1 if bad else 0
+
+def bounds_of(tr_bounds, k):
+    return next(b for b in tr_bounds if b[0] <= k < b[1])
+
+
+def run_spec(ck, spec):
+    name, sdir, extra, rec, corruptions, drop = spec
+    cfg = name + ".cfg"
+    t0 = time.time()
+    tp = rec(ck, name)
+    evs = read_events(tp)
+    if not evs:
+        ck.fatal("selftest %s: the recorder wrote no events" % name)
+    write_events(tp, evs)                        # canonical form (one line per event), whatever the recorder's spacing
+    tb = traces_of(evs)
+
+    def validate(path):
+        return ck.validate(sdir, name, cfg, path, shards=1, extra_dirs=extra, timeout=TLC_TIMEOUT)
+    base = validate(tp)
+    base_t = {f["t"] for f in base}
+    if len(base_t) * 2 > len(tb):
+        ck.fatal("selftest %s: the untouched file is rejected for %d of %d traces" % (name, len(base_t), len(tb)))
+
+    # (a) corrupt result fields, each in a trace of its own that the untouched run accepted
+    changed, used, labels = {}, set(base_t), []
+    for cnames, field, cf in corruptions:
+        hit = None
+        for k in candidates(evs, cnames, used):
+            if field in evs[k]:
+                lo, hi = bounds_of(tb, k)
+                new = cf(evs[k], evs[lo:hi], field)
+                if new is not None and new != evs[k][field]:
+                    hit = (k, new)
+                    break
+        if hit is None:
+            ck.fatal("selftest %s: no event %s with a field %s to corrupt in %d events" % (name, "/".join(cnames), field, len(evs)))
+        changed[hit[0]] = (field, hit[1])
+        used.add(evs[hit[0]]["t"])
+        labels.append("%s.%s" % (evs[hit[0]]["ev"], field))
+    second = [dict(e, **{changed[k][0]: changed[k][1]}) if k in changed else e for k, e in enumerate(evs)]
+    c_ts = {evs[k]["t"]: evs[k]["i"] for k in changed}
+
+    # (b) drop one state-changing event that a later event observes (the rest of its trace is renumbered: only the content is missing)
+    d_t = d_ev = None
+    if drop:
+        dnames, observed = drop
+        j = next((k for k in candidates(evs, dnames, base_t) if observed(evs, k, bounds_of(tb, k))), None)
+        if j is None:
+            ck.fatal("selftest %s: no event %s whose absence a later event observes" % (name, "/".join(dnames)))
+        lo, hi = bounds_of(tb, j)
+        d_t, d_ev = evs[j]["t"] + DROP_T, evs[j]["ev"]
+        for k, e in enumerate(evs):
+            if k == j:
+                continue
+            e = dict(e, t=e["t"] + DROP_T)
+            if j < k < hi and evs[j]["i"] > 0:
+                e["i"] -= 1
+            second.append(e)
+    sp = ck.path("st-%s-mutated.ndjson" % name)
+    write_events(sp, second)
+    fails = validate(sp)
+    rc = [f for f in fails if f["t"] < DROP_T]
+    rd = [f for f in fails if f["t"] >= DROP_T]
+    # every corrupted trace must be rejected at the corrupted event or at a later one that observes it (a JSON unit's bytes are
+    # compared when the document ends), on top of whatever the untouched file had rejected
+    ok_c = all(any(f["t"] == t and f["i"] >= i for f in rc) for t, i in c_ts.items()) and len(rc) == len(base) + len(c_ts)
+    ok_d = (not drop) or (d_t in {f["t"] for f in rd} and len(rd) == len(base) + 1)
+    line = "%-16s untouched: %d rejected | corrupted %s: %d rejected | dropped %s: %s -> %s" % (
+        name, len(base), " ".join(labels), len(rc), d_ev if drop else "-", ("%d rejected" % len(rd)) if drop else "n/a",
+        "bound" if ok_c and ok_d else "NOT BOUND")
+    return {"name": name, "ok": ok_c and ok_d, "line": line, "wall": time.time() - t0, "traces": len(tb), "events": len(evs)}
+
+
+def main(argv):
+    import argparse
+    ap = argparse.ArgumentParser()
+    ap.add_argument("--only", default="", help="comma separated T module names")
+    ap.add_argument("--out", default="", help="also write the result lines to this file")
+    ap.add_argument("--jobs", type=int, default=4, help="specifications handled in parallel (one TLC process each)")
+    a = ap.parse_args(argv)
+    only = [x for x in a.only.split(",") if x]
+    unknown = [x for x in only if x not in [s[0] for s in SPECS]]
+    if unknown:
+        print("SELFTEST-ERROR: unknown specification(s) %s" % unknown)
+        return 2
+    specs = [s for s in SPECS if not only or s[0] in only]
+    import signal
+    for sg in (signal.SIGTERM, signal.SIGINT, signal.SIGHUP):      # leave no TLC or driver process behind
+        signal.signal(sg, vcheck._kill_descendants)
+    t0 = time.time()
+    ck = vcheck.Check("SELFTEST", "quick", 1)
+    try:
+        ck.build_harness()
+        results = {}
+        with concurrent.futures.ThreadPoolExecutor(max_workers=max(1, a.jobs)) as ex:
+            futs = {ex.submit(run_spec, ck, s): s[0] for s in specs}
+            for f in concurrent.futures.as_completed(futs):
+                try:
+                    results[futs[f]] = f.result()
+                except Exception as ex:          # vcheck.Fatal (TLC / the driver failed to run) or a bug in this file: never a verdict
+                    msg = str(ex) if isinstance(ex, vcheck.Fatal) else "%s: %s" % (type(ex).__name__, ex)
+                    results[futs[f]] = {"ok": False, "error": True, "line": "%-16s SELFTEST-ERROR: %s" % (futs[f], " ".join(msg.split())[:300])}
+    finally:
+        shutil.rmtree(ck.work, ignore_errors=True)
+    lines = [results[s[0]]["line"] for s in specs]
+    errors = [s[0] for s in specs if results[s[0]].get("error")]
+    bad = [s[0] for s in specs if not results[s[0]]["ok"] and not results[s[0]].get("error")]
+    lines.append("%d trace specifications, %d bound, %d NOT BOUND%s%s; wall %.0f s" % (
+        len(specs), len(specs) - len(bad) - len(errors), len(bad), (" (" + ", ".join(bad) + ")") if bad else "",
+        (", %d not judged because the machinery failed (%s)" % (len(errors), ", ".join(errors))) if errors else "", time.time() - t0))
+    print("\n".join(lines))
+    if a.out:
+        os.makedirs(os.path.dirname(os.path.abspath(a.out)), exist_ok=True)
+        with open(a.out, "w") as f:
+            f.write("\n".join(lines) + "\n")
+    return 2 if errors else 1 if bad else 0
 
 
 if __name__ == "__main__":
     try:
-        sys.exit(main())
+        sys.exit(main(sys.argv[1:]))
     except vcheck.Fatal as ex:
         print("SELFTEST-ERROR:", ex)
         sys.exit(2)
